@@ -553,3 +553,199 @@ Lemma bounds_example :
   map (dec1 true Linear [0; 3; 7] [0#1; 16#1; 32#1]%Q) [0; 3; 4; 7] =
   [Some [0#4; 16#4]; Some [48#4; 64#4]; Some [64#4; 80#4]; Some [112#4; 128#4]]%Q.
 Proof. vm_compute. reflexivity. Qed.
+
+(* ------------------------------------------------------------------ *)
+(* subspaces, and the first/last-element shortcut (coordinates) *)
+
+Definition oq_equiv (a b : option Q) : Prop :=
+  match a, b with
+  | Some x, Some y => (x == y)%Q
+  | None, None => True
+  | _, _ => False
+  end.
+
+Definition obs_equiv (a b : obs) : Prop :=
+  match a, b with
+  | ObsErr, ObsErr => True
+  | ObsArr s v, ObsArr s' v' => s = s' /\ Forall2 oq_equiv v v'
+  | _, _ => False
+  end.
+
+Lemma oq_equiv_refl_list : forall v, Forall2 oq_equiv v v.
+Proof.
+  induction v as [|x r IH]; constructor; [|exact IH].
+  destruct x; cbn; [reflexivity|exact I].
+Qed.
+
+Lemma areas_ib_le_last : forall l k j f A, incr l -> In A (areas_from k j f l) -> a_ib A <= last l 0.
+Proof.
+  induction l as [|a r IH]; intros k j f A HI HA; [destruct HA|].
+  destruct r as [|b r']; [destruct HA|].
+  pose proof (incr_tail _ _ HI) as HI'. pose proof (incr_last_ge _ _ HI') as HL.
+  change (last (a :: b :: r') 0) with (last (b :: r') 0).
+  rewrite areas_from_cons2 in HA. destruct (b - a <=? 1).
+  - exact (IH _ _ _ _ HI' HA).
+  - destruct HA as [HA|HA]; [subst A; cbn; exact HL|exact (IH _ _ _ _ HI' HA)].
+Qed.
+
+Lemma no_overflow tpi n : incr tpi -> n = S (last tpi 0) -> overflow n tpi = false.
+Proof.
+  intros HI Hn. unfold overflow. destruct (existsb _ _) eqn:E; [|reflexivity].
+  apply existsb_exists in E as [A [HA HB]]. apply Nat.leb_le in HB.
+  pose proof (areas_ib_le_last _ _ _ _ _ HI HA). lia.
+Qed.
+
+Lemma nth_error_last (l : list nat) : l <> [] -> nth_error l (length l - 1) = Some (last l 0).
+Proof.
+  induction l as [|x r IH]; [congruence|]. intros _. destruct r as [|y r']; [reflexivity|].
+  change (last (x :: y :: r') 0) with (last (y :: r') 0).
+  replace (length (x :: y :: r') - 1) with (S (length (y :: r') - 1)) by (cbn; lia).
+  cbn [nth_error]. apply IH. discriminate.
+Qed.
+
+Lemma subspace1 meth tpi tp n ix :
+  incr tpi -> hd 0 tpi = 0 -> areas_ok tpi -> length tp = length tpi -> n = S (last tpi 0) ->
+  obs_equiv (getitem1 false meth n tpi tp [ix])
+            (ObsArr [length (positions n ix)]
+                    (take1 (dec1 false meth tpi tp) (positions n ix) [0])).
+Proof.
+  intros HI H0 HO HL Hn. unfold getitem1, getitem1_gen.
+  assert (HNE : tpi <> []) by (intro E; subst tpi; discriminate HO).
+  destruct ix as [| |l]; cbn [negb orb andb all_first all_last forallb positions length].
+  - (* slice(0,1,1): the first tie point *)
+    assert (H00 : nth_error tpi 0 = Some 0) by (destruct tpi; [congruence|cbn in *; congruence]).
+    destruct (tie_exact meth tpi tp 0 0 HI HO H00) as [y [E1 E2]].
+    cbn [take1 flat_map]. rewrite E1. cbn. split; [reflexivity|].
+    constructor; [cbn; symmetry; exact E2|constructor].
+  - (* slice(-1,None,1): the last tie point *)
+    pose proof (nth_error_last tpi HNE) as HLast.
+    destruct (tie_exact meth tpi tp _ _ HI HO HLast) as [y [E1 E2]].
+    subst n. replace (S (last tpi 0) - 1) with (last tpi 0) by lia.
+    cbn [take1 flat_map]. rewrite E1. cbn. split; [reflexivity|].
+    constructor; [cbn; rewrite HL; symmetry; exact E2|constructor].
+  - rewrite (no_overflow tpi n HI Hn). split; [reflexivity|apply oq_equiv_refl_list].
+Qed.
+
+Lemma subspace1_unguarded_refuted :
+  exists tpi tp n ix, incr tpi /\ hd 0 tpi = 0 /\ length tp = length tpi /\ n = S (last tpi 0) /\
+    ~ obs_equiv (getitem1 false Linear n tpi tp [ix])
+                (ObsArr [length (positions n ix)]
+                        (take1 (dec1 false Linear tpi tp) (positions n ix) [0])).
+Proof.
+  exists [0; 1; 5], [0#1; 16#1; 32#1]%Q, 6, IFirst.
+  split; [repeat constructor|]. split; [reflexivity|]. split; [reflexivity|]. split; [reflexivity|].
+  vm_compute. intros [_ H]. inversion H as [|? ? ? ? H1 _]. exact H1.
+Qed.
+
+(* ------------------------------------------------------------------ *)
+(* two subsampled dimensions (bi_linear) *)
+
+Lemma fold_step2 b T : forall L u i2 i1,
+  fold_left (step2 b T) L u i2 i1 =
+  match find (fun AA => cov (fst AA) i2 && cov (snd AA) i1) (rev L) with
+  | Some AA => Some (nth (i1 - a_lo (snd AA))
+                         (nth (i2 - a_lo (fst AA)) (block2 b T (fst AA) (snd AA)) []) [])
+  | None => u i2 i1
+  end.
+Proof.
+  induction L as [|A L IH]; intros u i2 i1; cbn [fold_left rev find]; [reflexivity|].
+  rewrite IH, find_app.
+  destruct (find (fun AA => cov (fst AA) i2 && cov (snd AA) i1) (rev L)); [reflexivity|].
+  cbn [find]. unfold step2. destruct (cov (fst A) i2 && cov (snd A) i1); reflexivity.
+Qed.
+
+Lemma dec2_at b tpi2 tpi1 T A2 A1 i2 i1 :
+  incr tpi2 -> incr tpi1 -> In A2 (subareas tpi2) -> In A1 (subareas tpi1) ->
+  cov A2 i2 = true -> cov A1 i1 = true ->
+  dec2 b tpi2 tpi1 T i2 i1 =
+  Some (nth (i1 - a_lo A1) (nth (i2 - a_lo A2) (block2 b T A2 A1) []) []).
+Proof.
+  intros HI2 HI1 HA2 HA1 HC2 HC1. unfold dec2. rewrite fold_step2.
+  destruct (find _ (rev (list_prod (subareas tpi2) (subareas tpi1)))) as [[B2 B1]|] eqn:F.
+  - apply find_some in F as [F1 F2]. apply in_rev in F1. apply in_prod_iff in F1 as [G2 G1].
+    cbn [fst snd] in *. apply andb_true_iff in F2 as [F2 F3].
+    rewrite (cov_unique _ _ _ _ _ _ _ HI2 HA2 G2 HC2 F2).
+    rewrite (cov_unique _ _ _ _ _ _ _ HI1 HA1 G1 HC1 F3). reflexivity.
+  - assert (HIn : In (A2, A1) (rev (list_prod (subareas tpi2) (subareas tpi1))))
+      by (apply in_rev; rewrite rev_involutive; apply in_prod; assumption).
+    pose proof (find_none _ _ F _ HIn) as F'. cbn [fst snd] in F'. rewrite HC2, HC1 in F'. discriminate.
+Qed.
+
+Lemma nth_trim {X} (f : bool) (l : list X) ia i d :
+  (if f then ia else S ia) <= i -> nth (i - (if f then ia else S ia)) (trim f l) d = nth (i - ia) l d.
+Proof.
+  destruct f; cbn [trim]; intro H; [reflexivity|].
+  rewrite nth_tl. f_equal. lia.
+Qed.
+
+Lemma trim_length {X} (f : bool) (l : list X) : length (trim f l) = if f then length l else length l - 1.
+Proof. destruct f; cbn [trim]; [reflexivity|]. destruct l; cbn; lia. Qed.
+
+Lemma linspace_nth size jj : jj < size -> nth jj (linspace size) 0%Q = (qn jj / qn (size - 1))%Q.
+Proof. intro H. unfold linspace. rewrite nth_map_seq by exact H. reflexivity. Qed.
+
+Lemma s_size_coord A : a_ia A < a_ib A -> s_size false A = a_ib A - a_ia A + 1.
+Proof. intro H. unfold s_size, a_shape. destruct (a_first A); cbn; lia. Qed.
+
+(* every element assigned by a pair of subareas holds the Appendix J
+   bi-linear value  fl(fl(ua,uc,s2), fl(ub,ud,s2), s1) *)
+Lemma block2_coord T A2 A1 i2 i1 :
+  a_ia A2 < a_ib A2 -> a_ia A1 < a_ib A1 -> cov A2 i2 = true -> cov A1 i1 = true ->
+  nth (i1 - a_lo A1) (nth (i2 - a_lo A2) (block2 false T A2 A1) []) [] =
+  let s2 := (qn (i2 - a_ia A2) / qn (a_ib A2 - a_ia A2))%Q in
+  let s1 := (qn (i1 - a_ia A1) / qn (a_ib A1 - a_ia A1))%Q in
+  [fl (fl (tpv2 T (a_k A2) (a_k A1)) (tpv2 T (S (a_k A2)) (a_k A1)) s2)
+      (fl (tpv2 T (a_k A2) (S (a_k A1))) (tpv2 T (S (a_k A2)) (S (a_k A1))) s2) s1].
+Proof.
+  intros H2 H1 HC2 HC1. unfold cov in HC2, HC1.
+  apply andb_true_iff in HC2 as [L2 U2]. apply andb_true_iff in HC1 as [L1 U1].
+  apply Nat.leb_le in L2, U2, L1, U1. unfold a_lo in *.
+  pose proof (s_size_coord A2 H2) as S2. pose proof (s_size_coord A1 H1) as S1.
+  unfold block2.
+  assert (LR : length (raw2 false T A2 A1) = a_ib A2 - a_ia A2 + 1)
+    by (unfold raw2; rewrite map_length, linspace_length; exact S2).
+  rewrite (nth_map_gen _ _ []) by (rewrite trim_length, LR; destruct (a_first A2); lia).
+  rewrite nth_trim by exact L2.
+  unfold raw2. cbv zeta.
+  match goal with |- context [nth (i2 - a_ia A2) (map ?F (linspace ?sz)) []] =>
+    rewrite (nth_map_gen F (linspace sz) 0%Q []) by (rewrite linspace_length; lia) end.
+  rewrite linspace_nth by lia.
+  rewrite (nth_map_gen (fun x : Q => [x]) _ 0%Q)
+    by (rewrite trim_length, map_length, linspace_length; destruct (a_first A1); lia).
+  rewrite nth_trim by exact L1.
+  rewrite (nth_map_gen _ _ 0%Q) by (rewrite linspace_length; lia).
+  rewrite linspace_nth by lia.
+  rewrite S2, S1.
+  replace (a_ib A2 - a_ia A2 + 1 - 1) with (a_ib A2 - a_ia A2) by lia.
+  replace (a_ib A1 - a_ia A1 + 1 - 1) with (a_ib A1 - a_ia A1) by lia.
+  reflexivity.
+Qed.
+
+Lemma bilinear_spec tpi2 tpi1 T A2 A1 i2 i1 :
+  incr tpi2 -> incr tpi1 -> In A2 (subareas tpi2) -> In A1 (subareas tpi1) ->
+  cov A2 i2 = true -> cov A1 i1 = true ->
+  dec2 false tpi2 tpi1 T i2 i1 =
+  let s2 := (qn (i2 - a_ia A2) / qn (a_ib A2 - a_ia A2))%Q in
+  let s1 := (qn (i1 - a_ia A1) / qn (a_ib A1 - a_ia A1))%Q in
+  Some [fl (fl (tpv2 T (a_k A2) (a_k A1)) (tpv2 T (S (a_k A2)) (a_k A1)) s2)
+           (fl (tpv2 T (a_k A2) (S (a_k A1))) (tpv2 T (S (a_k A2)) (S (a_k A1))) s2) s1].
+Proof.
+  intros HI2 HI1 HA2 HA1 HC2 HC1.
+  rewrite (dec2_at false tpi2 tpi1 T A2 A1 i2 i1 HI2 HI1 HA2 HA1 HC2 HC1).
+  pose proof (areas_lo_ge _ _ _ _ _ HI2 HA2) as [_ [_ G2]].
+  pose proof (areas_lo_ge _ _ _ _ _ HI1 HA1) as [_ [_ G1]].
+  rewrite (block2_coord T A2 A1 i2 i1 G2 G1 HC2 HC1). reflexivity.
+Qed.
+
+(* which pairs of subareas exist: every pair of consecutive tie point indices
+   more than one apart, flagged first iff it is the first pair or follows a
+   pair of adjacent indices *)
+Lemma subareas_spec tpi m a b :
+  nth_error tpi m = Some a -> nth_error tpi (S m) = Some b -> 2 <= b - a ->
+  In (mkA a b m (nsub tpi m) (first_at true tpi m)) (subareas tpi).
+Proof. intros Ha Hb Hg. exact (areas_member tpi 0 0 true m a b Ha Hb Hg). Qed.
+
+Lemma bilinear_example :
+  exists x, dec2 false [0; 4] [0; 4; 8] [[0#1; 64#1; 128#1]; [1024#1; 2048#1; 4096#1]]%Q 1 5 = Some [x]
+            /\ (x == 700#1)%Q.
+Proof. eexists; split; [vm_compute; reflexivity|reflexivity]. Qed.
